@@ -453,6 +453,7 @@ def subscript(I, base, key):
         m = base.cls.lookup("__getitem__")
         if m is not _MISSING:
             return I.call(BoundMethod(m, base), [key], {})
+        raise SymRaise("TypeError", f"'{base.cls.name}' object is not subscriptable")
     if _alg(base):
         e = to_expr(base)
         if isinstance(key, tuple) and all(k is None or k == slice(None, None, None) for k in key):
